@@ -1,24 +1,28 @@
 import McpModel.Base.Proto
 import McpModel.ClientWrite.Monitor
 import McpModel.ClientWrite.Open
+import McpModel.ClientWrite.Close
+import McpModel.ClientWrite.Modes
 /-!
 Driver for the `write` stream of E6 (C01; go/harness/mcp/zz_verif_clientwrite_test.go): one case = one message sent
 through the real ClientSession over the real StreamableClientTransport.
 
   reset
-  wscn kind=<call|notif> auth=<none|grant|deny|block> [ts=<fine|tserr|tokerr|invalidgrant>] cancel=<0|1> a1=<ans> a2=<ans>   obs ok
+  wscn [proto=new] [strict=1] kind=<call|notif> auth=<none|grant|deny|block> [ts=<fine|tserr|tokerr|invalidgrant>] cancel=<0|1> a1=<ans> a2=<ans>   obs ok
        ans: terr | hang | st<code>[r] (r: JSON-RPC error body) | ok:<json|jsonbad|jsoncut|jsonhang|sse|other>:<s|x> (x: foreign session id)
   posts                                        obs n=<POSTs of the message> tok=<0/1 per POST> auth=<Authorize calls>
   end                                          obs result | done | err:<kind> | hang
   probe                                        obs ok | err | skipped
+  closed  (close=w|f: Close called 500 ms / 5 s after the start)   obs at1m=<returned|blocked> final=<..> leak=<none|leak>
   close                                        obs delete=<DELETE requests made by Close>
 
 The opening of the standalone stream (connectStandaloneSSE; model `ClientWrite.openStandalone`, monitor `omonitor`):
 
   reset
-  oscn mr=<MaxRetries field> fails=<n> ans=st<code>[e]      obs ok      (e: under Content-Type text/event-stream)
+  oscn mr=<MaxRetries field> fails=<n> ans=st<code>[e] [strict=1]      obs ok      (e: under Content-Type text/event-stream)
   open                                                      obs gets=<GETs made>
   probe                                                     obs ok | err
+  oclose                                                    obs <returned|blocked> leak=<none|leak>
 
 `posts`, `end`, `probe` are compared with the model (`ClientWrite.run`); the C01 monitor (`ClientWrite.monitor`, typed,
 proved in Props.lean) judges the implementation's observation at `probe`, when the observation is complete.
@@ -33,6 +37,8 @@ def kv (toks : List String) (k : String) : Option String :=
 
 def parsePayload : String → Option Payload
   | "json" => some .json | "jsonbad" => some .jsonBad | "jsoncut" => some .jsonCut | "jsonhang" => some .jsonHang | "sse" => some .sse
+  | "accepted" => some .accepted
+  | "sseopen" => some .sseOpen | "ssecuth" => some .sseCutH | "ssecutt" => some .sseCutT
   | "other" => some .other | _ => none
 
 def parseAns (s : String) : Option Ans :=
@@ -54,7 +60,7 @@ def parseTS : String → Option TS
   | "fine" => some .fine | "tserr" => some .tsErr | "tokerr" => some .tokErr | "invalidgrant" => some .invalidGrant | _ => none
 
 def showEKind : EKind → String
-  | .tokenSource => "token-source" | .terr => "terr" | .ctx => "ctx" | .auth => "auth" | .rpc => "rpc" | .transient c => s!"st{c}" | .gone => "session-missing"
+  | .unexpectedStatus => "unexpected-status" | .tokenSource => "token-source" | .reconnect => "reconnect" | .terr => "terr" | .ctx => "ctx" | .auth => "auth" | .rpc => "rpc" | .transient c => s!"st{c}" | .gone => "session-missing"
   | .status c => s!"st{c}" | .mismatch => "mismatch" | .ctype => "ctype" | .body => "body" | .decode => "decode"
 
 def showEnd : End → String
@@ -95,7 +101,20 @@ def parseOAns (s : String) : Option OAns :=
   let d := if e then String.ofList ((dropS s 2).toList.dropLast) else dropS s 2
   d.toNat?.map (fun c => .st c e)
 
+def CClause.text : CClause → String
+  | .returns => "C01: Close did not return although the message that was on its way had ended"
+  | .ctx => "C01: the caller's context had ended but Close (or the caller) stayed blocked"
+  | .late => "C01: a call started after Close did not fail at once with the closed-connection error"
+  | .leak => "C01+C09: goroutines of the client remain blocked for ever after Close (the bubble cannot exit)"
+
+def showB (b : Bool) : String := if b then "returned" else "blocked"
+
 structure DState where
+  raw : Option Scn := none      -- the scenario as scripted; `scn` is its normalisation under `modes`
+  modes : Modes := {}
+  cat1m : Bool := false
+  cfinal : Bool := false
+  cleak : Bool := false
   oscn : Option OScn := none
   gets : Nat := 0
   scn : Option Scn := none
@@ -109,29 +128,41 @@ def engine : Engine DState where
     match toks with
     | ["reset"] => ({}, { model := "ok" })
     | "wscn" :: rest =>
-      let r : Option Scn := do
+      let r : Option (Scn × Modes) := do
+        let sessionless ← match kv rest "proto" with | none => some false | some "new" => some true | some _ => none
+        let strict ← match kv rest "strict" with | none => some false | some "1" => some true | some _ => none
         let kind ← match kv rest "kind" with | some "call" => some Kind.call | some "notif" => some Kind.notif | _ => none
         let auth ← (kv rest "auth").bind parseAuth
         let ts ← match kv rest "ts" with | none => some TS.fine | some t => parseTS t
         -- bg=posthang: another call of the session is in flight meanwhile; the calls of a session share nothing in the model
         match kv rest "bg" with | none => pure () | some "posthang" => pure () | some _ => none
+        let close ← match kv rest "close" with | none => some false | some "w" => some true | some "f" => some true | some _ => none
         let cancel ← match kv rest "cancel" with | some "0" => some false | some "1" => some true | _ => none
         let a1 ← (kv rest "a1").bind parseAns
         let a2 ← (kv rest "a2").bind parseAns
-        let s : Scn := { kind := kind, auth := auth, ts := ts, cancel := cancel, a1 := a1, a2 := a2 }
-        if decide (ScnOK s) then some s else none
+        let s : Scn := { kind := kind, auth := auth, ts := ts, cancel := cancel, close := close, a1 := a1, a2 := a2 }
+        if decide (ScnOK s) then some (s, { sessionless := sessionless, strict := strict }) else none
       match r with
-      | some s => ({ scn := some s }, { model := "ok" })
+      | some (s, m) => ({ scn := some (s.norm m), raw := some s, modes := m }, { model := "ok" })
       | none => ({}, { model := "bad-scn" })
     | "oscn" :: rest =>
       let r : Option OScn := do
         let mr ← (kv rest "mr").bind String.toInt?
         let fails ← (kv rest "fails").bind String.toNat?
         let ans ← (kv rest "ans").bind parseOAns
-        some { mr := Generated.ClientStream.maxRetriesOf mr, fails := fails, ans := ans }
+        let strict ← match kv rest "strict" with | none => some false | some "1" => some true | some _ => none
+        some { mr := Generated.ClientStream.maxRetriesOf mr, fails := fails, ans := ans, strict := strict }
       match r with
       | some s => ({ oscn := some s }, { model := "ok" })
       | none => ({}, { model := "bad-scn" })
+    | ["oclose"] =>
+      -- Close with no call pending, while the standalone stream (if any) is being read: it returns, nothing remains
+      match d.oscn with
+      | none => (d, { model := "bad-op" })
+      | some _ =>
+        let v := if impl.startsWith "blocked" then some "C01: Close did not return although no call was pending (the standalone stream was being read or had been declined)"
+                 else if impl != "returned leak=none" then some (CClause.text .leak) else none
+        (d, { model := "returned leak=none", violated := v })
     | ["open"] =>
       match d.oscn with
       | none => (d, { model := "bad-op" })
@@ -149,10 +180,24 @@ def engine : Engine DState where
       match d.scn with
       | none => (d, { model := "bad-op" })
       | some s => ({ d with end_ := parseEndObs impl }, { model := showEnd (run s).end_ })
+    | ["closed"] =>
+      -- a Close scenario: obs at1m=<returned|blocked> final=<returned|blocked> leak=<none|leak>
+      match d.scn with
+      | none => (d, { model := "bad-op" })
+      | some s =>
+        let w := words impl
+        let m := cobsOf s
+        ({ d with cat1m := kv w "at1m" == some "returned", cfinal := kv w "final" == some "returned", cleak := kv w "leak" != some "none" },
+         { model := s!"at1m={showB m.at1m} final={showB m.final} leak=none",
+           -- the leak clause is judged at once (a bubble that cannot exit gives no later records)
+           violated := if kv w "leak" != some "none" then some (CClause.text .leak) else none })
     | ["close"] =>
       match d.scn with
       | none => (d, { model := "bad-op" })
-      | some s => (d, { model := if deleteAtClose (run s) then "delete=1" else "delete=0" })
+      | some _ =>
+        match d.raw with
+        | some raw => (d, { model := if deleteAtCloseM d.modes raw then "delete=1" else "delete=0" })
+        | none => (d, { model := "bad-op" })
     | ["probe"] =>
       if let some os := d.oscn then
         match parseProbe impl with
@@ -160,6 +205,15 @@ def engine : Engine DState where
           (d, { model := showProbe (oobsOf (openStandalone os)).probe,
                 violated := (omonitor os { gets := d.gets, probe := p }).map OClause.text })
         | none => (d, { model := "bad-op" })
+      else
+      if (d.scn.map (·.close)) == some true then
+        match d.scn, d.end_ with
+        | some s, some e =>
+          let p : CProbe := if impl = "closed" then .closed else if impl = "ok" then .ok else if impl = "skipped" then .skipped else .err
+          let m := cobsOf s
+          (d, { model := (match m.probe with | .closed => "closed" | .ok => "ok" | .err => "err" | .skipped => "skipped"),
+                violated := (cmonitor s { at1m := d.cat1m, final := d.cfinal, leak := d.cleak, end_ := e, probe := p }).map CClause.text })
+        | _, _ => (d, { model := "bad-op" })
       else
       match d.scn, d.end_, parseProbe impl with
       | some s, some e, some p =>
